@@ -118,6 +118,9 @@ def stack_case(case):
                 return statuses.Status(o, __import__('pynetdicom2').dimsemessages.CStoreRSPMessage)
         srv = Srv('SRV', supported_ts=[ts], max_pdu_length=case['srv_max'])
         svc = sc.storage_scp
+        if case['seed'] % 2:
+            # the entity also *sends* instances of the class it receives (registered first)
+            srv.add_scu(sc.storage_scu, [IMG])
         srv.supported_scp.update({IMG: svc})
         srv.update_context_def_list([IMG], True)
         cli = aem.ClientAE('CLI', supported_ts=[ts], max_pdu_length=case['cli_max']).add_scu(sc.storage_scu, [IMG])
